@@ -24,8 +24,44 @@ BOUNDS = scenarios.BOUNDS
 EXHAUSTIVE = True
 
 
+# Layer N: a reference to an intrinsic NAME, the name being a true intrinsic or shadowed
+# by a local declaration / a USE, in every spelling of the reference (blank before the
+# parenthesis, blanks inside, mixed case) and several statement contexts (round 8: the
+# shadowing test looked up the unstripped text in front of '(').
+N_INTRINSICS = ["sum", "index", "size", "atan2", "mod", "max"]
+N_DECLS = [
+    ("none", None),
+    ("local", "real :: %(n)s(3)"),
+    ("local-2d", "integer, dimension(3, 3) :: %(n)s"),
+    ("use-only", "use tables, only: %(n)s"),
+    ("use-renamed", "use tables, only: %(n)s => other"),
+    ("use-all", "use tables"),
+]
+N_SPELL = ["%(n)s%(a)s", "%(n)s %(a)s", "%(N)s  %(a)s", "%(C)s %(a)s"]
+N_ARGS = ["(a, 2)", "(a(1:2), 2)", "(1)", "( 2 )"]
+N_CTX = ["x = %s", "x = %s + 2 * %s", "if (%s > 0) x = 1", "call ext(%s, x)", "print *, %s"]
+
+
+def n_cases(intr):
+    for dname, decl in N_DECLS:
+        for si, sp in enumerate(N_SPELL):
+            for ai, args in enumerate(N_ARGS):
+                if dname in ("none", "use-all") and ai >= 2:
+                    continue  # a true intrinsic needs a valid argument count
+                ref = sp % {"n": intr, "N": intr.upper(), "C": intr.capitalize(), "a": args}
+                for ci, ctx in enumerate(N_CTX):
+                    spec = []
+                    if decl and decl.startswith("use"):
+                        spec.append(G.S(decl % {"n": intr}, "use"))
+                    spec.append(G.S("real :: a(3, 3), x", "decl"))
+                    if decl and not decl.startswith("use"):
+                        spec.append(G.S(decl % {"n": intr}, "decl"))
+                    prog = G.sub_wrap(spec=spec, execs=[G.S(ctx.replace("%s", ref), "stmt")], name="sub", args="()")
+                    yield "N/%s/%s/s%d-a%d-c%d" % (intr, dname, si, ai, ci), prog
+
+
 def plan(tier, seed):
-    return scenarios.tasks(tier)
+    return scenarios.tasks(tier) + [("N", i) for i in N_INTRINSICS]
 
 
 def roundtrip(src, std, ic):
@@ -84,6 +120,14 @@ def feature_tag(cid):
 def run(task):
     res = Result()
     last = None
+    if task[0] == "N":
+        for cid, prog in n_cases(task[1]):
+            check_case(res, cid, prog, feature_tag(cid))
+            res.transitions += 1
+            if res.evals % 200 == 1:
+                res.sample({"case": cid, "source": G.render(prog)})
+        res.counters["layer_N_cases"] += res.evals
+        return res
     for cid, vec, prog, stats in scenarios.cases(task):
         check_case(res, cid, prog, feature_tag(cid))
         last = stats
